@@ -37,7 +37,7 @@ META = {
     'components_stub': ['open() and os.path.getsize seen by the file-interception module (delegating proxies)', 'S3 bucket'],
     'budgets': {'quick': {'seconds': 25}, 'thorough': {'seconds': 300}},
     'required_probes': {'thorough': ['size_at_limit', 'size_limit_plus_1', 'size_limit_minus_1', 'content_is_placeholder', 'binary_all_bytes', 'empty_file',
-                                     'limit_from_environment', 'path_by_keyword', 'path_positional', 'read_fault', 'above_limit_not_opened', 'stale_file_at_replay_path']},
+                                     'limit_from_environment', 'path_by_keyword', 'path_positional', 'read_fault', 'above_limit_not_opened', 'stale_file_at_replay_path', 'explicit_zero_limit', 'more_than_1MiB_below_limit', 'two_threads_one_handler']},
 }
 
 
@@ -119,19 +119,110 @@ def run_tape(tape):
                     pass
 
 
+def threaded_case(tape, clock, scratch, oproxy, osproxy):
+    """Two worker threads of one operation fetch different files through the same decorated function (one shared
+    handler object), under the seeded line-level scheduler."""
+    from simkit import REPO
+    from simkit.sim import Sim, SimDeadlock
+    run = Run(PROP)
+    run.probe('two_threads_one_handler')
+    limit_bytes = tape.choice([7, 24, 100])
+    contents = {}
+    for key in ('ka', 'kb'):
+        c, label = gen_content(tape, limit_bytes)
+        contents[key] = c if c != contents.get('ka') else c + b'!'
+    store = C.gen_store(tape, clock)
+    sim = Sim(tape, run, preempt_p=tape.choice([0.1, 0.3, 0.6]), target_prefixes=[os.path.join(REPO, 'playback', 'interception')], max_steps=60000)
+    run.say('two threads, limit %d bytes, file sizes %s, cassette %s' % (limit_bytes, dict((k, len(v)) for k, v in contents.items()), store.describe()))
+    run.ev('threaded', limit_bytes, sorted((k, len(v)) for k, v in contents.items()), store.describe())
+    try:
+        phase = {'n': 0}
+
+        def build(recorder, factory):
+            handler = InputInterceptionFileDataHandler(2, 'file_path', limit_bytes / MB)
+            seen = {}
+
+            class Svc(object):
+                @recorder.operation()
+                def execute(self):
+                    phase['n'] += 1
+                    n = phase['n']
+
+                    def work(key):
+                        p = os.path.join(scratch, 'in-%d-%s.bin' % (n, key))
+                        got = self.fetch(key, p)
+                        with builtins.open(got, 'rb') as f:
+                            seen[key] = f.read()
+                    ths = [factory(lambda key=key: work(key), 'w-' + key) for key in ('ka', 'kb')]
+                    for t in ths:
+                        t.start()
+                    for t in ths:
+                        t.join()
+                    return sorted(seen)
+
+                @recorder.intercept_input('fetch', data_handler=handler, capture_args=[CapturedArg(1, 'key')])
+                def fetch(self, key, file_path):
+                    with builtins.open(file_path, 'wb') as f:
+                        f.write(contents[key])
+                    return file_path
+            R.D.register('Svc', Svc)
+            return Svc, seen
+        spy = R.SpyCassette(store.open(), run)
+        recorder = TapeRecorder(spy)
+        recorder.enable_recording()
+        Svc, seen = build(recorder, R.sim_thread_factory(sim))
+        try:
+            out = sim.run_main(lambda: R.call_outcome(lambda: Svc().execute()))
+        except SimDeadlock as ex:
+            run.violate('service_unaffected', 'deadlock', str(ex))
+            return run
+        run.nontrivial = sim.switches > 2
+        run.check(out.kind == 'return' and seen == contents, 'service_unaffected', 'service-affected', lambda: 'recording changed what the service read: %r' % (out,))
+        saved = [c[1] for c in spy.calls if c[0] == 'save']
+        if not saved:
+            run.violate('saved', 'not-saved', 'recording not saved: %s' % (spy.calls,))
+            return run
+        for key in contents:
+            if len(contents[key]) > limit_bytes:
+                ro = [o for o in oproxy.opens if o == ('in-1-%s.bin' % key, 'rb')]
+                run.check(not ro, 'above_limit_never_read', 'above-limit-input-read', lambda: 'file of %s (%d bytes, limit %d) was opened for reading' % (key, len(contents[key]), limit_bytes))
+        rep_recorder = TapeRecorder(store.open(read_only=True))
+        Svc2, seen2 = build(rep_recorder, R.inline_thread_factory)
+        pb = R.call_outcome(lambda: rep_recorder.play(saved[-1], lambda recording: Svc2().execute()))
+        if pb.kind != 'return':
+            run.violate('replay_completes', 'play-raised:%s' % type(pb.exc).__name__, 'play raised %r' % (pb.exc,))
+            return run
+        for key in contents:
+            exp = PLACEHOLDER if len(contents[key]) > limit_bytes else contents[key]
+            if seen2.get(key) != exp:
+                run.violate('input_file_restored', 'input-bytes-differ:concurrent-calls', 'file of call %s restored as %r..., expected %r... (two threads used the handler at the same time)' % (
+                    key, (seen2.get(key) or b'')[:20], exp[:20]))
+    finally:
+        store.close()
+    return run
+
+
 def _run(tape, clock, scratch, oproxy, osproxy):
+    if tape.draw(6) == 5:
+        return threaded_case(tape, clock, scratch, oproxy, osproxy)
     run = Run(PROP)
     big = tape.draw(12) == 11          # 1 MiB boundary through the environment variable
-    limit_mode = 'env' if big else tape.choice(['arg', 'arg', 'env0', 'none'])
+    limit_mode = 'env' if big else tape.choice(['arg', 'arg', 'env0', 'none', 'arg0'])
+    big_under_limit = big and tape.draw(2) == 1      # more than 1 MiB, below a 2 MB limit: recorded and restored in full
     limit_bytes = (1 << 20) if big else tape.choice([1, 2, 7, 24, 100, 1000])
     by_keyword = bool(tape.draw(2))
     fault = tape.draw(8) == 7
     os.environ.pop('PLAYBACK_INTERCEPTED_FILE_SIZE_LIMIT', None)
     if limit_mode == 'arg':
         limit_arg = limit_bytes / MB
+    elif limit_mode == 'arg0':
+        limit_arg, limit_bytes = tape.choice([0, 0.0]), 0     # an explicit limit of zero: every non-empty file is above it
+        if tape.draw(2):
+            os.environ['PLAYBACK_INTERCEPTED_FILE_SIZE_LIMIT'] = '5'
+        run.probe('explicit_zero_limit')
     elif limit_mode == 'env':
-        os.environ['PLAYBACK_INTERCEPTED_FILE_SIZE_LIMIT'] = '1'
-        limit_arg, limit_bytes = None, 1 << 20
+        os.environ['PLAYBACK_INTERCEPTED_FILE_SIZE_LIMIT'] = '2' if big_under_limit else '1'
+        limit_arg, limit_bytes = None, (2 << 20) if big_under_limit else (1 << 20)
         run.probe('limit_from_environment')
     elif limit_mode == 'env0':
         os.environ['PLAYBACK_INTERCEPTED_FILE_SIZE_LIMIT'] = '0.9' if tape.draw(2) else '0'
@@ -139,7 +230,11 @@ def _run(tape, clock, scratch, oproxy, osproxy):
         run.probe('limit_from_environment')
     else:
         limit_arg, limit_bytes = None, 500 << 20
-    if big:
+    if big_under_limit:
+        n = (1 << 20) + tape.choice([1, 2, 3, 1000, 65536])
+        in_content, label = bytes(bytearray((i * 13 + n) & 0xff for i in range(n))), 'more_than_1MiB_below_limit'
+        out_content, label2 = in_content[:n - 1], 'more_than_1MiB_below_limit'
+    elif big:
         k = tape.draw(3)
         n = (1 << 20) - 1 + k
         in_content, label = bytes(bytearray((i * 7 + k) & 0xff for i in range(n))), ['size_limit_minus_1', 'size_at_limit', 'size_limit_plus_1'][k]
